@@ -1004,6 +1004,14 @@ def zero_default(tr: Translator, loc: Loc):
     if n.kind == "scalar":
         tr.emit(f"{tr.lv(loc)} = 0;")
     elif n.kind == "struct":
+        if n.ty is not None and getattr(n.ty, "kind", "") == "path" and n.ty.name == "AccountInfo" and "code_hash" in n.names:
+            import revm_models, itermodels
+            return revm_models.m_info_default(tr, itermodels.ICtx(tr, None, "<AccountInfo as Default>::default", [], loc))
+        if n.tag in ("KMap", "BTree"):
+            p = n.f("present")
+            for k in range(p.cap):
+                tr.emit(f"{p.elem.name}{sub(loc.idxs + [str(k)])} = 0;")
+            return
         if n.tag == "Set":
             p = n.f("present")
             for k in range(p.cap):
